@@ -320,6 +320,7 @@ def worldOp (st : Option DState) (op : String) (args tr : List String) : Option 
   | "locks", _, st => (st, "locks")        -- observations of the real code only: nothing to predict
   | "rxeval", _, st => (st, "rxeval")
   | "dnsq", _, st => (st, dnsModel args tr)
+  | "vcert", _, st => (st, vcertModel args tr)
   | "dnsqx", _, st => (st, "dnsqx")
   | "fault", _, st => (st, "fault")         -- the outcome under an allocation failure is judged by the monitor, not predicted
   | _, _, some d =>
